@@ -381,6 +381,12 @@ open_dump(kdump_ctx_t *ctx)
 	/* Drop whatever a previously opened file has left behind. */
 	clear_volatile_attrs(ctx);
 
+	/* CPUs are counted per file. The stored count outlives the cleared
+	 * attribute, and the arch code numbers new CPUs after it.
+	 */
+	if (!isset_num_cpus(ctx))
+		ctx->shared->num_cpus.number = 0;
+
 	for (i = 0; i < ARRAY_SIZE(formats); ++i) {
 		ctx->shared->ops = formats[i];
 		ret = ctx->shared->ops->probe(ctx);
